@@ -105,6 +105,11 @@ def run_case(spec, inputs=None):
         k_l = k_r = k_s = 0
     lhs, rhs = perm[:k_l], perm[k_l:k_l + k_r]
     stop = [names[i] for i in rng.permutation(n)[:k_s]]
+    if rng.random() < 0.35:  # calls merged from two sources: a contest may be listed twice in one list
+        lhs = lhs + lhs[:1]
+        rhs = rhs + rhs[-1:]
+        stop = stop + stop[:1]
+        out["counters"]["lists_with_repeated_entry"] = 1
     call["lhs_called_contests"], call["rhs_called_contests"], call["stop_model_call"] = lhs, rhs, stop
     alphas = call["prediction_intervals"]
     orders = aggregate_orders(rng, el, 4 if spec["i"] % 2 else 3)
